@@ -8,11 +8,11 @@ def main(tier, args):
     log = open(vf.BUILD + "/C07/log.txt", "w")
     # lane "big": default-constructed buffers (kInitialSize 256), sizes around 256 and up to 600, shallow
     bigd = 3 if tier == "quick" else 4
-    vf.run_procs(res, [("cap%d" % c, [exe, str(c), str(depth), str(live)]) for c in (0, 1, 2, 3, 4, 8)] + [("big", [exe, "big", str(bigd), "1500"])],
+    vf.run_procs(res, [("cap%d" % c, [exe, str(c), str(depth), str(live)]) for c in (0, 1, 2, 3, 4, 8)] + [("big", [exe, "big", str(bigd), "1500"]), ("huge", [exe, "huge", "2" if tier == "quick" else "3", "300000"])],
                  env={"VERIF_DEADLINE_S": str(dl)}, log=log)
     vf.finish(PID, tier, res, t0,
-              rule="BFS over all op histories (20 op kinds x sizes {0,1,2,3,5,exact-free}; consume and commit requests also over-long and (size_t)-1) on two real util::Buffer objects, "
-                   "depth<=%d, <=%d live bytes, initial capacity in {0,1,2,3,4,8}; lane 'big': default-constructed buffers, sizes {0,1,100,255,256,257,600}, depth<=%d, <=1500 live bytes; "
+              rule="BFS over all op histories (22 op kinds; sizes {0,1,2,3,5,exact-free}; consume and commit requests also over-long and (size_t)-1) on two real util::Buffer objects, "
+                   "depth<=%d, <=%d live bytes, initial capacity in {0,1,2,3,4,8}; lane 'big': default-constructed buffers, sizes {0,1,100,255,256,257,600}, depth<=%d, <=1500 live bytes; lane 'huge': sizes {0,1,65535,65536,65537}, depth 2 (thorough 3); reserve requests of SIZE_MAX, SIZE_MAX-1 and 2^63 (must be refused without effect), reserve without commit, fetch of (size_t)-1; "
                    "state = (capacity,read,write index) of both buffers; "
                    "oracle = std::deque reference after every op (also for the mutated copy) + ASan/UBSan with exact-size heap source/destination blocks for append/fetch" % (depth, live, bigd),
               assumptions=["byte values are not part of the canonical state (Buffer has no data-dependent control flow)",
